@@ -21,6 +21,11 @@ from . import env as envmod
 from . import nodemodel as nm
 from . import worklist as wl
 
+
+def verify_solve(pc, goal):
+    from pyvc import verify
+    return verify.solve(pc, goal, 20000)
+
 Struct, SeqS = nm.Struct, nm.SeqS
 PRE = z3.Function('PRE', Struct, SeqS)
 PREL = z3.Function('PREL', SeqS, SeqS)
@@ -397,4 +402,145 @@ def contracts(tier):
         Contract('bfs', [BFSQ], run_bfs, setup=setup_bfs, assumptions=A, replay=rp),
         Contract('bfs[node]', [BFSQ], lambda e, p: run_bfs(e, p, 'node'),
                  setup=setup_bfs, assumptions=A, replay=rp),
+        Contract('Node.__eq__[any trees]', [EQ], run_eq, setup=setup_eq,
+                 assumptions=A + [ASSUME_IDS],
+                 replay=wl.harness_replay('harness/nodes_native.py',
+                                          ['eq', 4], ['C12'])),
     ]
+
+
+# ---------------------------------------------------------------------------
+# Node.__eq__(self, other: Node): structural equality, trees of any size
+
+EQ = 'ddsmt.nodes.Node.__eq__'
+ASSUME_IDS = ('node invariants assumed for the operands and every node below '
+              'them: equal ids imply equal structure (C13: ids designate one '
+              'node), hash == hash of the structure (collisions between '
+              'different structures allowed)')
+
+
+def generic_operand(eng, p, name):
+    """A node with an arbitrary id (equal ids imply equal structure)."""
+    n = nm.lazy_node(eng, p, p.fresh_name(name))
+    idv = p.fresh_int('id_' + name)
+    p.assume(idv >= 1)
+    n.attrs['id'] = SNum(idv)
+    reg = p.ghost.setdefault('operands', [])
+    for o in reg:
+        p.assume(z3.Implies(idv == sym._znum(o.attrs['id']),
+                            nm.S(n) == nm.S(o)))
+    reg.append(n)
+    return n
+
+
+def setup_eq(eng):
+    setup(eng)
+    eng.spec_required.add(EQ)
+
+    def den(lst):
+        """Stack content, bottom first."""
+        out = []
+        for part in lst.parts:
+            if isinstance(part, tuple):
+                if not is_node(eng, part[1]):
+                    raise sym.Unsupported('stack item is not a node')
+                out.append(z3.Unit(nm.S(part[1])))
+            elif isinstance(part, wl.Seg):
+                g = nm.lazy_node(eng, cur(), cur().fresh_name('probe'))
+                if (part.wrap(g) if part.wrap else g) is not g:
+                    raise sym.Unsupported('stack items are not nodes')
+                out.append(part.seq if not part.rev else REVSEQ(part.seq))
+            else:
+                out.append(part.den)
+        return cat(out)
+
+    def make_split(tag):
+
+        def split(e, D):
+            p = cur()
+            n = generic_operand(e, p, tag)
+            rest = z3.Const(p.fresh_name('D' + tag), SeqS)
+            p.assume(D == z3.Concat(rest, z3.Unit(nm.S(n))))
+            p.ghost.setdefault('eq_split', {})[tag] = (rest, nm.S(n))
+            return n, rest
+
+        return split
+
+    def lemmas(e, env_, p):
+        """Valid facts about sequences, instantiated for the two popped
+        nodes; each is discharged on its own before it is used."""
+        sp = p.ghost.get('eq_split', {})
+        if 's' not in sp or 'o' not in sp:
+            return
+        (a, x), (b, y) = sp['s'], sp['o']
+        same_len = z3.Length(a) == z3.Length(b)
+        L = [z3.Implies(same_len, (z3.Concat(a, z3.Unit(x)) == z3.Concat(
+            b, z3.Unit(y))) == z3.And(a == b, x == y))]
+        kx, ky = kids(x), kids(y)
+        L.append(z3.Implies(
+            z3.And(same_len, z3.Length(kx) == z3.Length(ky)),
+            (z3.Concat(a, kx) == z3.Concat(b, ky)) == z3.And(a == b,
+                                                              kx == ky)))
+        L.append(z3.Implies(z3.And(Struct.is_tup(x), Struct.is_tup(y)),
+                            (x == y) == (kx == ky)))
+        for i, f in enumerate(L):
+            st, _, _, _, _ = verify_solve([], f)
+            p.oblige(f'lemma/sequences-{i}', st == 'proved')
+            if st == 'proved':
+                p.assume(f)
+
+    def havoc(e, env_, p):
+        for var, tag in (('visit_self', 's'), ('visit_other', 'o')):
+            D = z3.Const(p.fresh_name('D' + tag), SeqS)
+            env_.vars[var] = wl.AbsList(e, [wl.Opaque(
+                D, make_split(tag), lambda d: z3.Length(d) > 0)])
+
+    def inv(e, env_):
+        p = cur()
+        vs, vo = env_.vars['visit_self'], env_.vars['visit_other']
+        if isinstance(vs, list):
+            vs = wl.as_abs(e, vs)
+        if isinstance(vo, list):
+            vo = wl.as_abs(e, vo)
+        if not isinstance(vs, wl.AbsList) or not isinstance(vo, wl.AbsList):
+            return [False]
+        ds, do = den(vs), den(vo)
+        return [('C12', z3.Length(ds) == z3.Length(do)),
+                ('C12', p.ghost['target'] == (ds == do))]
+
+    def covers(e, env_, p):
+        lemmas(e, env_, p)
+        x = env_.vars.get('ns')
+        if is_node(e, x):
+            kind = 'leaf' if isinstance(x.attrs.get('data'), (
+                str, sym.SStr)) else 'list'
+            p.oblige(f'cover/__eq__/compares-a-{kind}', False, kind='cover')
+
+    eng.loop_specs[(EQ, 'while visit_self')] = LoopSpec(
+        inv=inv, havoc={'effect:state': havoc},
+        sets=('visit_self', 'visit_other'), on_iter_end=covers)
+
+
+def run_eq(eng, p):
+    a = generic_operand(eng, p, 'self')
+    b = generic_operand(eng, p, 'other')
+    target = nm.S(a) == nm.S(b)
+    p.ghost['target'] = target
+    cls = nm.node_class(eng)
+    f, _ = cls.lookup('__eq__')
+    err = None
+    r = None
+    try:
+        r = eng.call_real(f, [a, b]) if hasattr(eng, 'call_real') else \
+            eng.call(f, [a, b], {})
+    except PyRaise as ex:
+        err = ex
+    p.oblige('C04/__eq__/raises-nothing', err is None,
+             info={'outcome': repr(err.value) if err else ''})
+    if err is not None:
+        return
+    t = eng.truth(r)
+    p.oblige('C12/__eq__/true-exactly-for-equal-structure',
+             mk_bool(target if t else z3.Not(target)),
+             info={'result': t, 'signature': 'Node.__eq__ disagrees with '
+                   'structural equality'})
